@@ -72,15 +72,15 @@ Proof. exact specb_sound. Qed.
 (* ---- the pinned tree: refuted, with witnesses that are replayed on the implementation
         (corpus/C07/*.json); guarded form ---- *)
 Theorem C07_ojn_tempo_times_refuted :
-  wf_file w_sweep = true /\ exists o, read_now (encode_file w_sweep) = Some o /\ specb 0 w_sweep (Some o) = false
+  wf_file w_sweep = true /\ exists o, read_old (encode_file w_sweep) = Some o /\ specb 0 w_sweep (Some o) = false
   /\ map om_bpms (os_maps o) = [[mkBpm 0 120; mkBpm 0 240]; [mkBpm 0 120]; [mkBpm 0 120]]
   /\ map om_hits (os_maps o) = [[mkHit 0 0 0 0; mkHit 0 4000 0 0]; []; []].
 Proof. exact ojn_tempo_times_refuted. Qed.
 Theorem C07_ojn_no_tempo_event_refuted :
-  wf_file w_notempo = true /\ read_now (encode_file w_notempo) = None /\ ojn_denote w_notempo <> None.
+  wf_file w_notempo = true /\ read_old (encode_file w_notempo) = None /\ ojn_denote w_notempo <> None.
 Proof. exact ojn_no_tempo_event_refuted. Qed.
 Theorem C07_ojn_tempo_at_measure_0_refuted :
-  wf_file w_tempo0 = true /\ read_now (encode_file w_tempo0) = None /\ ojn_denote w_tempo0 <> None.
+  wf_file w_tempo0 = true /\ read_old (encode_file w_tempo0) = None /\ ojn_denote w_tempo0 <> None.
 Proof. exact ojn_tempo_at_measure_0_refuted. Qed.
 Theorem C07_ojn_hold_length_refuted :
   wf_file w_trunc = true
@@ -89,11 +89,11 @@ Theorem C07_ojn_hold_length_refuted :
   /\ (exists o, read_fixed (encode_file w_trunc) = Some o /\ specb 0 w_trunc (Some o) = true
         /\ map om_holds (os_maps o) = [[mkHold 0 0 (16000 # 3) 0 0]; []; []]).
 Proof. exact ojn_hold_length_refuted. Qed.
-Theorem C07_ojn_now_guarded_no_notes : forall pkgs init,
+Theorem C07_ojn_old_guarded_no_notes : forall pkgs init,
   Forall (fun e => is_bpm e = true) (concat pkgs) ->
-  exists rows, read_pkgs_now pkgs init = Some (mkOMap [] [] (mkBpm 0 init :: rows))
+  exists rows, read_pkgs_old pkgs init = Some (mkOMap [] [] (mkBpm 0 init :: rows))
     /\ Forall (fun r => b_off r = 0) rows.
-Proof. exact ojn_now_guarded_no_notes. Qed.
+Proof. exact ojn_old_guarded_no_notes. Qed.
 Theorem C07_fixed_on_witnesses :
   forallb (fun f => wf_file f && specb 0 f (read_fixed (encode_file f))) [w_sweep; w_notempo; w_tempo0; w_trunc] = true.
 Proof. exact ojn_fixed_on_witnesses. Qed.
